@@ -897,7 +897,19 @@ void AbstractDOMParser::endElement( const   XMLElementDecl&
     if (fCurrentParent == fDocument)
         fWithinElement = false;
 
-    if(fDoXInclude &&
+    // the content of an xi:fallback is processed only if that fallback is used; the
+    // enclosing xi:include does that when its own end tag is seen
+    bool insideFallback = false;
+    for (DOMNode* anc = fCurrentParent; fDoXInclude && anc != 0 && anc != fDocument; anc = anc->getParentNode())
+    {
+        if (anc->getNodeType() == DOMNode::ELEMENT_NODE && XIncludeUtils::isXIFallbackDOMNode(anc))
+        {
+            insideFallback = true;
+            break;
+        }
+    }
+
+    if(fDoXInclude && !insideFallback &&
        (XIncludeUtils::isXIIncludeDOMNode(fCurrentNode) ||
         ((XIncludeUtils::isXIFallbackDOMNode(fCurrentNode) &&
           !XMLString::equals(fCurrentParent->getNamespaceURI(), XIncludeUtils::fgXIIIncludeNamespaceURI)))))
